@@ -165,6 +165,9 @@ def gen_cli_case(rnd, i):
         ext = rnd.choice([".bin", ".BIN", ".raw", "", ".bin.x", ".Bin"])
         form = rnd.choice(["plain", "subdir", "abs"])
         fn = rnd.choice(FILE_CHARS[:62]) + rnd_word(rnd, FILE_CHARS, 0, 7) + ext
+        if rnd.random() < 0.12:
+            # names that only LOOK like an extension: the format goes by a real '.bin' suffix
+            fn = rnd.choice(["bin", "BIN", "raw", "Bin", "xbin", "bin.raw", "raw.bin"])
         opts = ["-o", {"plain": fn, "subdir": "out/" + fn, "abs": "@ABS@/" + fn}[form]]
     if mode.startswith("implicit"):
         opts = ["--implicit-bin"]
@@ -179,7 +182,7 @@ def gen_cli_case(rnd, i):
             if d[0].endswith("wav") and d[1] is not None:
                 d[2] = rnd.choice(["ЖУК", "игра", "Тест 1", "Ёж", "Привет", "абвгдежз", "абвгдежзи"])     # 3..9 letters = 6..18 bytes in utf-8
     incdir = rnd.choice([None, None, None, "lib", "lib/deep"]) if directives and not any((d[1] or "").startswith("../") or "/../" in (d[1] or "") for d in directives) else None
-    return {"charset": charset, "incdir": incdir, "kind": "cli", "base": base, "image": img.hex(), "src": stem + suffix, "srcdir": srcdir, "directives": directives,
+    return {"charset": charset, "incdir": incdir, "stale": rnd.random() < 0.3, "kind": "cli", "base": base, "image": img.hex(), "src": stem + suffix, "srcdir": srcdir, "directives": directives,
             "opts": opts, "where": rnd.choice(["top", "bottom", "middle"]), "quote": rnd.choice("\"'/"), "second": second}
 
 
@@ -358,6 +361,12 @@ def run_case(case, cnt=None):
             n_req += 1
         # duplicate targets (two directives naming one path) make the expectation ambiguous: last writer wins; skip content check then
         targets = [t for t in expected]
+        if case.get("stale"):
+            # an older, longer file already sits at every target: the new container replaces it, nothing of the old one stays
+            for t in targets:
+                os.makedirs(os.path.dirname(t), exist_ok=True)
+                with open(t, "wb") as f:
+                    f.write(b"STALE OLD OUTPUT " * 40000)
         r = cli.run_cli(argv, cwd, scratch, timeout=120)
         cnt["cli_runs"] += 1
         if r["stall"]:
